@@ -387,10 +387,19 @@ def run(ctx):
         """v = (prefix statement, neg, xd, xe, P, variable)"""
         stmt, neg, xd, xe, P, var = v
         d.setv('F$', field.encode('ascii'))
-        text = '%s:PRINT USING F$;%s' % (stmt, var)
+        # the field is printed twice from the same variable: the first line is judged by the specification, the second
+        # must be the same text (the output is a function of field and value; formatting must not change the variable)
+        text = '%s:PRINT USING F$;%s:PRINT USING F$;%s' % (stmt, var, var)
         cur[0] = 'F$="%s":%s' % (field, text)
         r = d.ex(text)
         out = r[2]
+        if r[0] == 'ok' and out.endswith(b'\r\n') and out.count(b'\r\n') == 2:
+            first, second = out[:-2].split(b'\r\n')
+            if first != second:
+                ctx.reject('C08 repeat: %s -> %r then %r' % (cur[0], first, second),
+                           key={'clause': 'repeat', 'type': var[-1]}, data={'text': cur[0], 'first': list(first), 'second': list(second)})
+            out = first + b'\r\n'
+            classes['printed_twice_same_text'] = classes.get('printed_twice_same_text', 0) + (first == second)
         e = {'op': 'num', 'f': list(field.encode('ascii')), 'neg': neg, 'xd': xd, 'xe': xe, 'p': P}
         if r[0] == 'ok' and out.endswith(b'\r\n'):
             e['k'], e['out'] = 'ok', list(out[:-2])
